@@ -8,7 +8,7 @@ ID = PROP = 'C16'
 LEVEL = 'exploration'
 RULE = ('a case is a sentence whose tag rows are built around the beam boundary: a needed tag at rank pruning_size or pruning_size+1, '
         'at relative distance +-{1e-3,1e-2,0.3} from beta x best probability, rows flattened to -1e33 as the category dictionary does, '
-        'beta in {1e-5,1e-3,0.1,0.5,0.9}, pruning 1..60, filter on/off; grammars where few tags per word lead to a parse so that admitting '
+        'beta in {1e-10,1e-8,1e-5,1e-3,0.1,0.5,0.9}, pruning 1..60, filter on/off; grammars where few tags per word lead to a parse so that admitting '
         'or excluding one flips parse/fail. Monitors: no leaf tag outside the may-admitted set (independent statement of the beam), no '
         'parse when the reference finds none over the may set, no failure when it finds one over the must set. distinct = fingerprint '
         'of (grammar, matrices, config); non-trivial = the beam excludes at least one tag of some word.')
@@ -136,7 +136,7 @@ def gen(rng, spec):
     n, T = tag.shape
     cfg['pruning_size'] = rng.choice((1, 1, 2, 2, 3, T, T + 1, 60))
     cfg['use_beta'] = rng.random() < 0.7
-    cfg['beta'] = rng.choice((1e-5, 1e-3, 0.1, 0.5, 0.9))
+    cfg['beta'] = rng.choice((1e-5, 1e-3, 0.1, 0.5, 0.9, 1e-8, 1e-10))    # the filter is a filter for every beta in (0, 1)
     tag = tag.astype(np.float64)
     for i in range(n):
         r = rng.random()
@@ -157,7 +157,7 @@ def gen(rng, spec):
             tag[i, order[1]] = tag[i, order[0]]          # tie at the top
     case['sentences'][0] = (words, tag.astype(np.float32), dep)
     case['exact'] = False
-    if rng.random() < 0.15:
+    if rng.random() < 0.15 and cfg['beta'] >= 1e-5:      # deep rows are built for beta >= 1e-5 (see extreme_rows)
         search.extreme_rows(rng, case, mode='deep')
     return case
 
